@@ -311,6 +311,12 @@ func (c *Ctx) checkTooLongEdge(fn *ssa.Function, gi *guardInfo, input *ssa.Param
 		if u, ok := in.(*ssa.UnOp); ok && u.X == sentinel {
 			usesSentinel = true
 		}
+		// an error-constructing helper of the module that loads the sentinel itself
+		if call, ok := in.(*ssa.Call); ok {
+			if callee := c.StaticCallee(&call.Call); callee != nil && inRepo(callee) && loadsGlobal(origin(callee), sentinel, 2) {
+				usesSentinel = true
+			}
+		}
 	}
 	if !usesSentinel {
 		c.add("violated", "C18.L", fn, ret.Pos(), "too-long edge does not wrap "+sentinel.Name())
@@ -321,6 +327,23 @@ func (c *Ctx) checkTooLongEdge(fn *ssa.Function, gi *guardInfo, input *ssa.Param
 	if usesSentinel && !leaksInput {
 		c.add("discharged", "C18.L", fn, ret.Pos(), "too-long edge wraps "+sentinel.Name()+" and carries no input bytes")
 	}
+}
+
+// loadsGlobal: fn, or a function of the module it calls directly (to the given depth), loads g.
+func loadsGlobal(fn *ssa.Function, g *ssa.Global, depth int) bool {
+	for _, b := range fn.Blocks {
+		for _, in := range b.Instrs {
+			if u, ok := in.(*ssa.UnOp); ok && u.X == ssa.Value(g) {
+				return true
+			}
+			if call, ok := in.(ssa.CallInstruction); ok && depth > 0 {
+				if callee := call.Common().StaticCallee(); callee != nil && inRepo(callee) && loadsGlobal(origin(callee), g, depth-1) {
+					return true
+				}
+			}
+		}
+	}
+	return false
 }
 
 // ---------- C18.T1 ----------
@@ -895,10 +918,8 @@ func (c *Ctx) RuleMulOverflow(fn *ssa.Function) {
 // `len > MaxInputLength` comparison (so no in-limit input can be rejected with it).
 func (c *Ctx) RuleSentinelOnlyInGuards(sentinel *ssa.Global, fns []*ssa.Function) {
 	n := 0
-	for _, fn := range fns {
-		if fn.Name() == "init" {
-			continue
-		}
+	// the too-long edges of fn's MaxInputLength guards
+	edges := func(fn *ssa.Function) []*ssa.BasicBlock {
 		var errBlks []*ssa.BasicBlock
 		for _, b := range fn.Blocks {
 			iff, ok := b.Instrs[len(b.Instrs)-1].(*ssa.If)
@@ -920,6 +941,43 @@ func (c *Ctx) RuleSentinelOnlyInGuards(sentinel *ssa.Global, fns []*ssa.Function
 				errBlks = append(errBlks, b.Succs[1])
 			}
 		}
+		return errBlks
+	}
+	// onEdge: block b of fn runs only behind a too-long edge — of fn itself, or (an error-constructing helper) of every
+	// call site of fn in the package
+	var onEdge func(fn *ssa.Function, b *ssa.BasicBlock, depth int) bool
+	onEdge = func(fn *ssa.Function, b *ssa.BasicBlock, depth int) bool {
+		if c.domAny(edges(fn), b) {
+			return true
+		}
+		if depth >= 3 {
+			return false
+		}
+		sites := 0
+		for _, caller := range fns {
+			for _, cb := range caller.Blocks {
+				for _, in := range cb.Instrs {
+					call, ok := in.(ssa.CallInstruction)
+					if !ok {
+						continue
+					}
+					callee := c.StaticCallee(call.Common())
+					if callee == nil || origin(callee) != origin(fn) {
+						continue
+					}
+					sites++
+					if !onEdge(caller, cb, depth+1) {
+						return false
+					}
+				}
+			}
+		}
+		return sites > 0
+	}
+	for _, fn := range fns {
+		if fn.Name() == "init" {
+			continue
+		}
 		for _, b := range fn.Blocks {
 			for _, in := range b.Instrs {
 				u, ok := in.(*ssa.UnOp)
@@ -927,7 +985,7 @@ func (c *Ctx) RuleSentinelOnlyInGuards(sentinel *ssa.Global, fns []*ssa.Function
 					continue
 				}
 				n++
-				if c.domAny(errBlks, b) {
+				if onEdge(fn, b, 0) {
 					c.add("discharged", "C18.L", fn, in.Pos(), sentinel.Name()+" produced only on the too-long edge of the length guard")
 				} else {
 					c.add("violated", "C18.L", fn, in.Pos(), sentinel.Name()+" is produced outside the too-long edge of a MaxInputLength guard: an input within the limit can be rejected for its length")
